@@ -79,6 +79,8 @@ def main():
     os.makedirs(dst, exist_ok=True)
     for f in os.listdir(seed):
         src = os.path.join(seed, f)
+        if os.path.abspath(src) == os.path.abspath(os.path.join(dst, f)):
+            continue
         if os.path.isfile(src) and os.path.getsize(src) < 200000 and not os.access(src, os.X_OK) or f.endswith('.sh'):
             shutil.copyfile(src, os.path.join(dst, f))
     mp = os.path.join(dst, 'meta.json')
